@@ -80,7 +80,8 @@ def rand_agg(rng, nm, depth, pack=0, inline=False, flex_ok=True):
         r = rng.random()
         if r < 0.3:
             fields.append(fld(nm(), arr(prim(rng.choice(["int", "char", "short", "unsigned char", "wchar_t", "double",
-                                                          "long", "void *"])), -1)))
+                                                          "long", "void *", "char16_t", "char32_t", "char16_t",
+                                                          "signed char", "_Bool"])), -1)))
         elif r < 0.42 and depth < 3:
             # a var-sized struct as last member (CT_WITH_VAR_ARRAY propagates)
             inl = rng.random() < 0.5
@@ -133,7 +134,12 @@ def gen_prim(rng, cname, errp, bits=-1):
     if kind == 3:
         return dict(f=rng.choice([0.0, 1.5, -2.25, 1024.0, rng.randint(-4096, 4096) / 8.0]))
     if kind == 4:
-        return dict(b="%02x" % rng.randint(1, 255)) if s == 1 else dict(s=[rng.choice([65, 0x3b1, 0x4e2d, 1])])
+        if s == 1:
+            return dict(b="%02x" % rng.randint(1, 255))
+        pool = [65, 0x3b1, 0x4e2d, 1, 0xD800, 0xDFFF, 0xFFFF] + ([0x10000, 0x1F600, 0x10FFFF] if s == 4 else [])
+        if s == 2 and rng.random() < errp:
+            return dict(s=[rng.choice([0x10000, 0x1F600])])       # does not fit a single char16_t
+        return dict(s=[rng.choice(pool)])
     return dict(p=rng.choice([0, 0, 0x1234, 0x7fff12345678]))
 
 
@@ -190,9 +196,19 @@ def gen_array_init(rng, item, n, errp, depth):
         k = rng.choice([cap, max(cap - 1, 0), rng.randint(0, cap)]) if rng.random() >= errp or flex else cap + 1
         hi = 1 if item["c"] == "_Bool" and rng.random() >= errp else 255
         return dict(b="".join("%02x" % rng.randint(0 if hi == 1 else 1, hi) for _ in range(k)))
-    if item["k"] == "prim" and PRIMS[item["c"]][0] == 4 and PRIMS[item["c"]][1] > 1 and r < 0.45:
+    if item["k"] == "prim" and PRIMS[item["c"]][0] == 4 and PRIMS[item["c"]][1] > 1 and r < 0.55:
+        # str initializer: BMP, astral (two char16_t units each) and lone surrogates; k counts UNITS
+        units = 2 if PRIMS[item["c"]][1] == 2 else 1
         k = rng.choice([cap, max(cap - 1, 0), rng.randint(0, cap)]) if rng.random() >= errp or flex else cap + 1
-        return dict(s=[rng.choice([65, 66, 0x3b1, 0x4e2d]) for _ in range(k)])
+        cps, used = [], 0
+        while used < k:
+            c = rng.choice([65, 66, 0x3b1, 0x4e2d, 0xD800, 0xDC00, 0x10000, 0x1F600, 0x10FFFF, 0x1F600])
+            w = units if c > 0xFFFF else 1
+            if used + w > k:
+                c, w = 66, 1
+            cps.append(c)
+            used += w
+        return dict(s=cps)
     if flex and r < 0.6:
         if rng.random() < errp:
             return dict(i=rng.choice([-1, -5, 1 << 63, 1 << 62]))
@@ -253,6 +269,25 @@ def directed_cases(rng):
     nm = c01.Namer()
     X = agg(False, 0, [fld(nm(), prim("int")), fld(nm(), V(nm))])
     out.append(dict(form="ptr", top=X, init=dict(d=[["f2", dict(d=[["f4", dict(i=3)]])]])))
+    # flexible character arrays of every character type, str/bytes initializers with astral characters and lone
+    # surrogates, positional / by name / nested in a var-sized member
+    for ct in ("char", "wchar_t", "char16_t", "char32_t"):
+        for txt in ([97], [0x1F600], [97, 0x1F600, 0x10000, 98], [0xD800], [0xDC00, 0xD800], [0x10FFFF] * 3, []):
+            nm = c01.Namer()
+            S = agg(False, 0, [fld(nm(), prim("int")), fld(nm(), arr(prim(ct), -1))])
+            v = dict(b="".join("%02x" % (c % 255 + 1) for c in txt)) if ct == "char" else dict(s=txt)
+            out.append(dict(form="ptr", top=S, init=dict(l=[dict(i=1), v])))
+            nm = c01.Namer()
+            S = agg(False, 0, [fld(nm(), prim("int")), fld(nm(), arr(prim(ct), -1))])
+            out.append(dict(form="ptr", top=S, init=dict(d=[["f2", v]])))
+            nm = c01.Namer()
+            inner = agg(False, 0, [fld(nm(), prim("short")), fld(nm(), arr(prim(ct), -1))])
+            X = agg(False, 0, [fld(nm(), prim("long")), fld(nm(), inner)])
+            out.append(dict(form="ptr", top=X, init=dict(l=[dict(i=2), dict(d=[["f2", v]])])))
+        out.append(dict(form="arr", top=prim(ct), len=-1,
+                        init=dict(b="414243") if ct == "char" else dict(s=[0x1F600, 65, 0x10000])))
+        out.append(dict(form="arr", top=prim(ct), len=4,
+                        init=dict(b="41424344") if ct == "char" else dict(s=[0x1F600, 65, 66])))
     # sequence initializers skip the non-first members of (anonymous) unions
     for k in (1, 2, 3, 4):
         nm = c01.Namer()
@@ -556,7 +591,8 @@ def flex_request(c):
     if "b" in v:
         return len(v["b"]) // 2 + 1
     if "s" in v:
-        return len(v["s"]) + 1
+        two = last["t"]["item"]["k"] == "prim" and PRIMS[last["t"]["item"]["c"]][1] == 2
+        return sum(2 if (two and c > 0xFFFF) else 1 for c in v["s"]) + 1
     return None
 
 
